@@ -143,6 +143,29 @@ func TypedSubtype(v interface{}, st string) Arg {
 	}
 }
 
+// namedValue is like Named but takes the value as a reflect.Value and keeps
+// the type it is known under (for a struct field of an interface type that
+// is the interface type, not the dynamic type of its content).
+func namedValue(n string, rv reflect.Value) Arg {
+	return func(a *argBuilder) error {
+		if rv.IsValid() {
+			a.named[strings.ToLower(n)] = rv
+		}
+		return nil
+	}
+}
+
+// typedValue is like Typed but takes the value as a reflect.Value and keeps
+// the type it is known under.
+func typedValue(rv reflect.Value) Arg {
+	return func(a *argBuilder) error {
+		if rv.IsValid() {
+			a.typed[rv.Type()] = rv
+		}
+		return nil
+	}
+}
+
 // Converter specifies one or more converters to use if necessary.
 // A converter will be used if an argument type doesn't match exactly.
 func Converter(fs ...interface{}) Arg {
